@@ -684,6 +684,11 @@ func genC17(repo string) (string, error) {
 		return "", err
 	}
 	sb.WriteString(r10)
+	r12, err := genC17Round12(repo)
+	if err != nil {
+		return "", err
+	}
+	sb.WriteString(r12)
 	return sb.String(), nil
 }
 
